@@ -1,16 +1,98 @@
 import GlueVerif.Model.C02Serial
 import GlueVerif.Lemmas.C02Table
+import GlueVerif.Lemmas.C02Total
 import GlueVerif.Generated.C02Registry
 /-!
 # C02 — a saved session restores to an observationally equivalent session
 
+Part A: theorems about the executable model of `glue/core/state.py` (`Model/C02Serial.lean`):
+names, the `st__` prefix, and the round trip `unserialize ∘ serialize`.
 Part B: obligations over the dispatch table generated from the tree under test
 (`Generated/C02Registry.lean`, rewritten by `harness/translate/c02.py` on every run).
 -/
 namespace GlueVerif.C02
 open GlueVerif.C02.Gen
 
-/-! ## Generated table -/
+/-! ## Part A — the framework -/
+
+/-- **names_injective.**  Whatever the labels of the objects are (equal labels, labels that look like
+disambiguated names such as `a_0`, labels equal to `__main__`, empty labels …), after `serialize`
+every object has exactly one name and distinct objects have distinct names. -/
+theorem names_injective (h : Heap) (main : Nat) (st : SState) (T : Table)
+    (hs : serialize h main = .ok (st, T)) :
+    (∀ o n n', (o, n) ∈ st.reg → (o, n') ∈ st.reg → n = n') ∧
+    (∀ o o' n, (o, n) ∈ st.reg → (o', n) ∈ st.reg → o = o') :=
+  ⟨fun _ _ _ h1 h2 => (serialize_regOk h main hs).name_unique h1 h2,
+   fun _ _ _ h1 h2 => (serialize_regOk h main hs).obj_unique h1 h2⟩
+
+/-- `_disambiguate` always terminates with an unused name that extends the label (pigeonhole over the
+`|registry| + 1` candidates `label_0 … label_n`; `"%s_%i"` is injective in `i`). -/
+theorem disambiguate_total_fresh (reg : Reg) (label : Str) :
+    disambiguate reg label ∉ reg.map Prod.snd ∧ label <+: disambiguate reg label :=
+  ⟨disambiguate_fresh reg label, (disambiguate_spec reg label).2⟩
+
+/-- **string_prefix_safe** (for the code repaired by fix F5c).  No object name can be read as a string
+literal, and every string written by `id`/`do` reads back as exactly that string: a reference and
+a string literal can never be confused by `GlueUnSerializer.object`. -/
+theorem string_prefix_safe (h : Heap) (main : Nat) (st : SState) (T : Table)
+    (hs : serialize h main = .ok (st, T)) :
+    (∀ o n, (o, n) ∈ st.reg → isLiteralStr n = false) ∧
+    (∀ s : Str, isLiteralStr (stPrefix ++ s) = true ∧ (stPrefix ++ s).drop 4 = s) :=
+  ⟨fun o n hm => (serialize_regOk h main hs).notLiteral (o, n) hm, literal_roundtrip⟩
+
+/-- Witness for the code before the fix: the label `st__foo` is used as a name and reads as the
+literal `foo`; and two objects labelled `st_` give the second one the name `st__0`, which reads as
+the literal `0` (confirmed on the unrepaired tree: the session loads *silently* with the string
+`'0'` in place of the object). -/
+theorem old_label_reads_as_literal :
+    isLiteralStr (oldLabel [] ['s', 't', '_', '_', 'f', 'o', 'o']) = true ∧
+    oldLabel [(1, ['s', 't', '_'])] ['s', 't', '_'] = ['s', 't', '_', '_', '0'] ∧
+    isLiteralStr (oldLabel [(1, ['s', 't', '_'])] ['s', 't', '_']) = true ∧
+    isLiteralStr (safeLabel [(1, ['s', 't', '_'])] ['s', 't', '_']) = false := by
+  decide
+
+/-- **roundtrip_framework** (acyclic graphs with arbitrary sharing; plain loaders; named references).
+For every heap whose references stay inside the heap, whose classes have field-faithful pairs with
+plain (non-generator, callback-free) loaders, without inlined objects, and whose reference graph is
+acyclic (`rank` strictly decreases along every edge): `serialize` succeeds, and un-serializing its
+output succeeds for every sufficient recursion depth and satisfies the Spec `specRoundTrip` — every
+registered name is restored, distinct names are distinct restored objects (sharing is neither lost
+nor invented), and every restored object has the class, literals, strings and — by name — the
+references of the object that was saved under that name.
+
+Full statement aimed at (kept for reference; see `props.d/C02/design.md` for what is missing):
+the same for graphs with inlined (`context.do`) sub-objects that form trees, and with cycles all of
+whose edges are read after a generator loader's `yield` (hypothesis `lateCyclesBy rank h`); the
+executable model covers both and is compared with the real code on such graphs by the `fw` family. -/
+theorem roundtrip_framework_partial (h : Heap) (main : Nat) (rank : Nat → Nat)
+    (hwf : wellFormed h main = true) (hno : noOwn h = true) (hearly : allEarly h = true)
+    (hacyc : acyclicBy rank h = true) :
+    ∃ st T, serialize h main = .ok (st, T) ∧
+      ∀ fuel, rank main + 1 < fuel →
+        ∃ ls i, unserialize T fuel = (ls, .ok (.ref i)) ∧ specRoundTrip h st.reg ls = true := by
+  obtain ⟨hm, hw⟩ := wellFormed_iff h main hwf
+  obtain ⟨st, T, hs⟩ := serialize_total h main (noOwn_iff h hno) hm hw
+  exact ⟨st, T, hs, fun fuel hf =>
+    roundtrip_acyclic_core rank (noOwn_iff h hno) (allEarly_iff h hearly) (acyclicBy_iff rank h hacyc) hs fuel hf⟩
+
+/-- The hypotheses are satisfiable by a non-trivial graph: a diamond with a shared leaf, clashing and
+literal-looking labels (main → a, b; a → leaf; b → leaf, a). -/
+def demoHeap : Heap := [
+  { cls := 0, label := ['m'], fields := [⟨.early, .ref 1⟩, ⟨.early, .ref 2⟩, ⟨.early, .str ['s', 't', '_', '_', 'x']⟩] },
+  { cls := 1, label := ['s', 't', '_'], fields := [⟨.early, .ref 3⟩, ⟨.early, .lit 7⟩] },
+  { cls := 1, label := ['s', 't', '_'], fields := [⟨.early, .ref 3⟩, ⟨.early, .ref 1⟩] },
+  { cls := 2, label := ['s', 't', '_', '_', '0'], fields := [] } ]
+
+example : wellFormed demoHeap 0 = true ∧ noOwn demoHeap = true ∧ allEarly demoHeap = true ∧
+    acyclicBy (height demoHeap 4) demoHeap = true := by decide
+
+example : (match serialize demoHeap 0 with
+    | .ok (st, _) => st.reg.map (·.2)
+    | .error _ => []) =
+    [mainName, ['s', 't', '_'], ['_', 's', 't', '_', '_', '0'], ['_', 's', 't', '_', '_', '0', '_', '0']] := by decide
+
+/-! ## Part B — the generated dispatch table -/
+
 
 /-- The ids the translator attached to the declared lists denote exactly the names declared in the
 model (`declaredFaithful`, `declaredLoud`), and every declared name exists in the tree. -/
